@@ -19,7 +19,8 @@ RULE = ("calls = generated method names (identifiers, flat dotted registrations,
         "reused across batches, including notification-only batches; batch sizes 1-25 and 31-33, 99-101, 128, 257), with generated "
         "JSON arguments and an independently planned return value (falsy values over-weighted), in every cell of "
         "version {1.0,2.0} x {bare dispatcher + loopback, Simple x {TCP,Unix}, Pooled x {TCP,Unix}} x class translation "
-        "{on,off} (20 cells, all instantiated in every run). Oracles: probe log shows exactly one invocation with the "
+        "{on,off} (20 cells, all instantiated in every run; in 7 of them the same callables are also served as the methods of "
+        "a registered object that routes calls through its own _dispatch). Oracles: probe log shows exactly one invocation with the "
         "sent name and typed-equal arguments; returned value typed-equal to the planned one (tuples->lists); History "
         "equals, in order, the texts recorded at the server boundary. distinct = distinct (cell, style, name, arguments, "
         "planned value); non-trivial = the call reached the probe and all three oracles ran.")
@@ -49,7 +50,7 @@ MC_EXCLUDED = {"method", "params", "notify", "request", "_config", "_job_list", 
 
 
 class Cell(object):
-    def __init__(self, cell):
+    def __init__(self, cell, mode="default"):
         import jsonrpclib
         import jsonrpclib.config
         from jsonrpclib.history import History
@@ -61,7 +62,11 @@ class Cell(object):
                 "sub": {"leaf": Spec("sub.leaf", "*args, **kwargs", ("planned", self.planned)),
                         "é": Spec("sub.é", "*args, **kwargs", ("planned", self.planned)),
                         "deeper": {"leaf2": Spec("sub.deeper.leaf2", "*args, **kwargs", ("planned", self.planned))}}}
-        reg = oracle.RegModel(funcs, tree, "default")
+        # mode "instance-dispatch": the callables are the methods of ONE registered object which routes the calls through
+        # its own _dispatch(method, params) (positional list -> *params, keyword map -> **params)
+        reg = oracle.RegModel(funcs, tree, mode)
+        self.mode = mode
+        self.names = FLAT_NAMES + INSTANCE_NAMES if mode == "default" else list(FLAT_NAMES)
         self.fx = dm.Fixture(reg, version=v, use_jsonclass=jc)
         self.history = History()
         self.boundary = []      # (request text, response text) seen at the server boundary
@@ -256,7 +261,7 @@ def multicall(ctx, c, rng):
     n = rng.randint(1, 6) if r < 0.7 else rng.randint(7, 25) if r < 0.9 else \
         rng.choice([9, 10, 11, 12, 31, 32, 33, 99, 100, 101, 128, 257])
     jobs = []
-    names = [nm for nm in FLAT_NAMES + INSTANCE_NAMES if nm.split(".")[0] not in MC_EXCLUDED]
+    names = [nm for nm in c.names if nm.split(".")[0] not in MC_EXCLUDED]
     all_notify = rng.random() < 0.15
     for _ in range(n):
         args, kwargs = gen_args(rng)
@@ -362,6 +367,20 @@ def run(ctx):
                     multicall(ctx, c, rng)
         finally:
             c.close()
+        # the same callables as methods of a registered object with its own _dispatch (four of the cells in each run)
+        if cell[3] and cell[1:3] in (("bare", "loopback"), ("pooled", "tcp"), ("simple", "unix")) or ci == ctx.seed % len(CELLS):
+            c = Cell(cell, mode="instance-dispatch")
+            ctx.cell("v%s" % cell[0], cell[1], cell[2], "jc" if cell[3] else "nojc", "instance-with-own-_dispatch")
+            try:
+                for name in FLAT_NAMES:
+                    single_call(ctx, c, rng, name, "getattr")
+                for i in range(per // 6):
+                    if rng.random() < 0.7:
+                        single_call(ctx, c, rng, rng.choice(FLAT_NAMES), "getattr")
+                    else:
+                        multicall(ctx, c, rng)
+            finally:
+                c.close()
     ctx.sample({"cell": list(CELLS[ctx.shard % len(CELLS)]), "style": "getattr", "name": "sub.deeper.leaf2",
                 "args": [0, "", None], "planned": []})
 
